@@ -2,12 +2,15 @@
 import glob
 import json
 import os
+import pickle
 import re
 from collections import defaultdict, deque
 
 from . import extract
 
 _CRATE_RE = re.compile(r"(?<![A-Za-z0-9_])crate::")
+# std/alloc re-exports print as std:: or core:: depending on the crate's no_std-ness: normalise
+_STD_RE = re.compile(r"(?<![A-Za-z0-9_:])(?:std|alloc)::")
 
 
 def strip_generics(s):
@@ -706,13 +709,33 @@ class Facts:
         best = None
         for f in cands:
             with open(f) as fh:
-                txt = fh.read()
-            j = json.loads(_CRATE_RE.sub(crate + "::", txt))
-            key = (len(j.get("features", [])), len(txt))
+                head = fh.read(4096)
+            m = re.search(r'"features":\[([^\]]*)\]', head)
+            nfeat = len([x for x in m.group(1).split(",") if x.strip()]) if m else 0
+            key = (nfeat, os.path.getsize(f), f)
             if best is None or key > best[0]:
-                best = (key, j, f)
-        j = best[1]
-        self.files.append(os.path.basename(best[2]))
+                best = (key, f)
+        f = best[1]
+        pk = f + ".pkl"
+        j = None
+        if os.path.exists(pk):
+            try:
+                with open(pk, "rb") as fh:
+                    j = pickle.load(fh)
+            except Exception:
+                j = None
+        if j is None:
+            with open(f) as fh:
+                txt = fh.read()
+            j = json.loads(_STD_RE.sub("core::", _CRATE_RE.sub(crate + "::", txt)))
+            try:
+                tmp = pk + ".%d.tmp" % os.getpid()
+                with open(tmp, "wb") as fh:
+                    pickle.dump(j, fh, protocol=pickle.HIGHEST_PROTOCOL)
+                os.replace(tmp, pk)
+            except OSError:
+                pass
+        self.files.append(os.path.basename(f))
         self.crates[crate] = j
         for fj in j["fns"]:
             f = Fn(crate, fj)
@@ -767,6 +790,11 @@ class Facts:
         for p, a in self.adts.items():
             if path_match(p, pat):
                 return a
+        # re-exported items print with their visible path from other crates
+        crate, last = pat.split("::")[0], pat.split("::")[-1]
+        c = [a for p, a in self.adts.items() if p.split("::")[0] == crate and p.split("::")[-1] == last]
+        if len(c) == 1:
+            return c[0]
         raise MissingAnchor("ADT %s not found" % pat)
 
     def impls_of(self, adt_pat=None, trait_pat=None):
